@@ -9,6 +9,7 @@ modes:
   swap-if-else   if c: A else: B  ->  if not c: B else: A        (plain if/else only, no elif chains; `not not` avoided)
   not-in         a not in b -> not (a in b) ;  a is not b -> not (a is b)
   return-else    if c: <..return>  <rest>   ->   if c: <..return> else: <rest>      (function bodies, last if with a return)
+  split-and / merge-if / comp-to-loop / guard-continue / de-morgan / ifexp-swap / extract-test: see the class docstrings
 The rewritten tree is built under tempfile.mkdtemp() from `git archive HEAD` of /repo and removed afterwards.
 """
 import ast
@@ -187,7 +188,101 @@ class CompToLoop(ast.NodeTransformer):
         return node
 
 
-MODES = {"flip-compare": Flip, "swap-if-else": SwapIf, "not-in": NotIn, "return-else": ReturnElse, "split-and": SplitAnd, "merge-if": MergeIf, "comp-to-loop": CompToLoop}
+class GuardContinue(ast.NodeTransformer):
+    """for ..: <pre..> if c: BODY      (the if is the last statement of the loop body, no else, BODY does not end the loop body
+    specially)   ->   for ..: <pre..> if not c: continue  BODY"""
+    n = 0
+
+    def _loop(self, node):
+        self.generic_visit(node)
+        if node.body and isinstance(node.body[-1], ast.If) and not node.body[-1].orelse and not node.orelse:
+            last = node.body[-1]
+            t = last.test
+            if not (isinstance(t, ast.Compare) and isinstance(t.ops[0], (ast.Lt, ast.LtE, ast.Gt, ast.GtE))) and not any(
+                    isinstance(x, (ast.FunctionDef, ast.ClassDef)) for x in last.body):
+                GuardContinue.n += 1
+                guard = ast.copy_location(ast.If(test=negate(t), body=[ast.copy_location(ast.Continue(), last)], orelse=[]), last)
+                node.body[-1:] = [guard] + last.body
+        return node
+    visit_For = _loop
+    visit_While = _loop
+
+
+class DeMorgan(ast.NodeTransformer):
+    """not (a and b) -> not a or not b ; not (a or b) -> not a and not b   (and the tests of if/while written as a conjunction
+    of negatable parts get the outer-negation form:  a and b  ->  not (not a or not b) is NOT produced - only the first direction)"""
+    n = 0
+
+    def visit_UnaryOp(self, node):
+        self.generic_visit(node)
+        if isinstance(node.op, ast.Not) and isinstance(node.operand, ast.BoolOp):
+            b = node.operand
+            if all(not (isinstance(v, ast.Compare) and isinstance(v.ops[0], (ast.Lt, ast.LtE, ast.Gt, ast.GtE))) for v in b.values):
+                DeMorgan.n += 1
+                op = ast.Or() if isinstance(b.op, ast.And) else ast.And()
+                return ast.copy_location(ast.BoolOp(op=op, values=[negate(v) for v in b.values]), node)
+        return node
+
+
+class IfExpSwap(ast.NodeTransformer):
+    """a if c else b  ->  b if not c else a"""
+    n = 0
+
+    def visit_IfExp(self, node):
+        self.generic_visit(node)
+        t = node.test
+        if not (isinstance(t, ast.Compare) and isinstance(t.ops[0], (ast.Lt, ast.LtE, ast.Gt, ast.GtE))):
+            IfExpSwap.n += 1
+            return ast.copy_location(ast.IfExp(test=negate(t), body=node.orelse, orelse=node.body), node)
+        return node
+
+
+class ElifNest(ast.NodeTransformer):
+    """if a: A elif b: B else: C   is already   if a: A else: (if b: B else: C)  in the tree; this mode makes the nesting
+    explicit where it matters to a reader of the unparsed text: the inner `if` is followed by a `pass`-free marker - no-op in the
+    tree, so it only checks that nothing depends on the unparser's elif rendering (kept for completeness)"""
+    n = 0
+
+
+class ExtractTest(ast.NodeTransformer):
+    """if <compound test>: ..   ->   cond_x = <test>; if cond_x: ..     (statement-level `if` with a BoolOp / Compare test whose
+    evaluation has no side effects: names, attributes, constants, subscripts, len/isinstance calls)"""
+    n = 0
+
+    def _pure(self, e):
+        for x in ast.walk(e):
+            if isinstance(x, ast.Call) and not (isinstance(x.func, ast.Name) and x.func.id in ("len", "isinstance", "hasattr")):
+                return False
+            if isinstance(x, (ast.NamedExpr, ast.Await, ast.Yield, ast.YieldFrom, ast.Lambda, ast.ListComp, ast.SetComp, ast.DictComp, ast.GeneratorExp)):
+                return False
+        return True
+
+    def _block(self, stmts):
+        out = []
+        for st in stmts:
+            if isinstance(st, ast.If) and isinstance(st.test, (ast.BoolOp, ast.Compare)) and self._pure(st.test):
+                ExtractTest.n += 1
+                nm = f"cond_{ExtractTest.n}"
+                out.append(ast.copy_location(ast.Assign(targets=[ast.Name(id=nm, ctx=ast.Store())], value=st.test), st))
+                st.test = ast.copy_location(ast.Name(id=nm, ctx=ast.Load()), st.test)
+            out.append(st)
+        return out
+
+    def generic_visit(self, node):
+        super().generic_visit(node)
+        if isinstance(node, (ast.FunctionDef, ast.AsyncFunctionDef, ast.If, ast.For, ast.While, ast.With, ast.Try, ast.ExceptHandler)):
+            for f in ("body", "orelse", "finalbody"):
+                v = getattr(node, f, None)
+                if isinstance(v, list) and v and isinstance(v[0], ast.stmt):
+                    # an elif chain must stay a chain: `orelse` consisting of a single If is left alone
+                    if f == "orelse" and isinstance(node, ast.If) and len(v) == 1 and isinstance(v[0], ast.If):
+                        continue
+                    setattr(node, f, self._block(v))
+        return node
+
+
+MODES = {"guard-continue": GuardContinue, "de-morgan": DeMorgan, "ifexp-swap": IfExpSwap, "extract-test": ExtractTest,
+         "flip-compare": Flip, "swap-if-else": SwapIf, "not-in": NotIn, "return-else": ReturnElse, "split-and": SplitAnd, "merge-if": MergeIf, "comp-to-loop": CompToLoop}
 
 
 def sh(cmd, cwd=None):
